@@ -282,7 +282,16 @@ impl Brush {
 
     pub fn from_environment(stream: Stream) -> Result<Self, UnknownColorModeError> {
         let mode = if atty::is(stream) {
-            let env_color_mode = std::env::var("PASTEL_COLOR_MODE").ok();
+            let env_color_mode = match std::env::var("PASTEL_COLOR_MODE") {
+                Ok(value) => Some(value),
+                Err(std::env::VarError::NotPresent) => None,
+                // a value that is not valid Unicode is not one of the known modes either
+                Err(std::env::VarError::NotUnicode(value)) => {
+                    return Err(UnknownColorModeError(
+                        value.to_string_lossy().into_owned(),
+                    ));
+                }
+            };
             match env_color_mode.as_deref() {
                 Some(mode_str) => Mode::from_mode_str(mode_str)?,
                 None => get_colormode(),
